@@ -50,6 +50,7 @@ const (
 	c21FnMarshal   = "func:swap.MarshalPeerswapMessage"
 	c21FnCustom    = "func:messages.PeerswapCustomMessageType"
 	c21FnUnmarshal = "func:encoding/json.Unmarshal"
+	c21FnDecode    = "func:(*encoding/json.Decoder).Decode"
 	c21IfSend      = "iface:swap.Messenger.SendMessage"
 	c21MaxPayload  = 100 * 1024
 )
@@ -99,6 +100,7 @@ func runC21(c *an.Check) {
 	c21R3(c)
 	c21R4(c, disp, numOf)
 	c21R5(c, marshal)
+	c21R4Streaming(c, disp)
 	c21R6(c, disp)
 	c21R7(c, onMsg, custom)
 }
@@ -353,7 +355,7 @@ func c21NewDispatch(w *an.World, fn *ssa.Function) *c21Dispatch {
 			if cx == nil {
 				cx = call
 			}
-			if ci.Name == c21FnUnmarshal {
+			if ci.Name == c21FnUnmarshal || ci.Name == c21FnDecode {
 				nt, al, ok := c21UnmarshalTarget(call)
 				if ok {
 					d.decodes = append(d.decodes, c21Decode{call: call, typ: nt, slot: al, ctx: cx})
@@ -422,6 +424,9 @@ func (d *c21Dispatch) guards(at ssa.Instruction) (eq []int64, onlyNeq bool, unin
 	return eq, len(eq) == 0 && nNeq > 0, uninterpreted
 }
 
+// c21Opaque: values c21DependsOn does not look behind (set temporarily by a caller).
+var c21Opaque = map[ssa.Value]bool{}
+
 // c21DependsOn: the backward slice of v through phis, operators, conversions
 // and call arguments contains one of the given values.
 func c21DependsOn(v ssa.Value, on map[ssa.Value]bool) bool {
@@ -434,6 +439,9 @@ func c21DependsOn(v ssa.Value, on map[ssa.Value]bool) bool {
 		seen[v] = true
 		if on[v] {
 			return true
+		}
+		if c21Opaque[v] {
+			return false
 		}
 		switch x := v.(type) {
 		case *ssa.Phi:
@@ -1411,7 +1419,7 @@ func c21EffectFree(w *an.World, f *ssa.Function) bool {
 	for _, ef := range w.Summary(f).Effects {
 		n := ef.Name
 		switch {
-		case n == c21FnUnmarshal:
+		case n == c21FnUnmarshal || n == c21FnDecode:
 			return false
 		case strings.HasPrefix(n, "builtin:"):
 		case n == "iface:error.Error":
@@ -1481,7 +1489,7 @@ func c21Effectful(w *an.World, d *c21Dispatch) []ssa.CallInstruction {
 	for _, call := range an.Calls(d.fn) {
 		ci := w.Info(call)
 		switch {
-		case ci.Name == c21FnUnmarshal:
+		case ci.Name == c21FnUnmarshal || ci.Name == c21FnDecode:
 			out = append(out, call)
 		case d.parse != nil && call == ssa.CallInstruction(d.parse):
 		case strings.HasPrefix(ci.Name, "builtin:"):
@@ -1549,13 +1557,21 @@ func c21R4(c *an.Check, d *c21Dispatch, numOf map[*types.Named]int64) {
 		c.Bad("C21.R4", "OnMessageReceived size guard", pos, fmt.Sprintf("no test of len(payload) rejects every payload above %d bytes (100 KiB). Tests in the function: %s", c21MaxPayload, an.DescribeFacts(w.Facts(fn))))
 	default:
 		// is the payload looked at by any branch at all (e.g. through a helper)?
+		// ... other than through the result of decoding it
 		dep := map[ssa.Value]bool{fn.Params[pi]: true}
+		for _, dec := range d.decodes {
+			if v := dec.ctx.Value(); v != nil {
+				dep[v] = false
+				c21Opaque[v] = true
+			}
+		}
 		looked := false
 		for _, b := range fn.Blocks {
 			if i, ok := b.Instrs[len(b.Instrs)-1].(*ssa.If); ok && c21DependsOn(i.Cond, dep) {
 				looked = true
 			}
 		}
+		c21Opaque = map[ssa.Value]bool{}
 		if looked {
 			c.Unknown("C21.R4", "OnMessageReceived size guard", pos, "the payload is tested, but not by a comparison of len(payload) with a constant that this rule can read")
 		} else {
@@ -1597,6 +1613,14 @@ func c21R4(c *an.Check, d *c21Dispatch, numOf map[*types.Named]int64) {
 	for _, dec := range d.decodes {
 		if dec.ctx != dec.call {
 			helperDecodes[dec.ctx] = true
+			// a decoding helper that reports failure through its error result
+			// guards the rest of its arm like a direct json.Unmarshal
+			if hc, isCall := dec.ctx.(*ssa.Call); isCall && dec.typ != nil && an.ErrResultIndex(hc) >= 0 {
+				if num, has := numOf[dec.typ]; has {
+					okE, _ := an.OkEdges(hc)
+					arms = append(arms, arm{ok: okE, num: num})
+				}
+			}
 			continue
 		}
 		uc, isCall := dec.call.(*ssa.Call)
@@ -1615,7 +1639,7 @@ func c21R4(c *an.Check, d *c21Dispatch, numOf map[*types.Named]int64) {
 	for _, call := range eff {
 		ci := w.Info(call)
 		name := strings.TrimPrefix(strings.TrimPrefix(ci.Name, "func:"), "iface:")
-		isUnm := ci.Name == c21FnUnmarshal
+		isUnm := ci.Name == c21FnUnmarshal || ci.Name == c21FnDecode
 		armNums, onlyNeq, uninterpreted := d.guards(call)
 		cons := "OnMessageReceived call " + name
 		if len(armNums) == 1 {
@@ -1646,11 +1670,11 @@ func c21R4(c *an.Check, d *c21Dispatch, numOf map[*types.Named]int64) {
 					}
 				}
 				switch {
+				case helperDecodes[call]:
+					// the callee decodes the payload itself
 				case okArm:
 				case anyArm:
 					missing = append(missing, "not behind the err==nil edge of the json.Unmarshal of its arm: an undecodable payload reaches it")
-				case helperDecodes[call]:
-					// the callee decodes the payload itself
 				default:
 					unknown = append(unknown, "no json.Unmarshal of this arm was found in OnMessageReceived or in this callee: cannot tell whether an undecodable payload reaches the call")
 				}
@@ -3337,7 +3361,7 @@ func c21R2Received(c *an.Check, custom *ssa.Function, byNum map[int64]int) {
 var c21FallibleLib = map[string]bool{
 	"func:encoding/hex.DecodeString": true, "func:encoding/hex.Decode": true,
 	"func:strconv.ParseInt": true, "func:strconv.ParseUint": true, "func:strconv.Atoi": true, "func:strconv.ParseFloat": true, "func:strconv.ParseBool": true,
-	"func:encoding/json.Unmarshal": true, "func:encoding/base64.(*Encoding).DecodeString": true,
+	"func:encoding/json.Unmarshal": true, "func:encoding/base64.(*Encoding).DecodeString": true, "func:(*encoding/json.Decoder).Decode": true,
 }
 
 func c21SameSig(a *types.Signature, params, results *types.Tuple) bool {
@@ -3464,7 +3488,7 @@ func c21R7(c *an.Check, onMsg, custom *ssa.Function) {
 			}
 			// decoded values
 			vals := map[ssa.Value]bool{}
-			if ci.Name == "func:encoding/json.Unmarshal" || ci.Name == "func:encoding/hex.Decode" {
+			if ci.Name == "func:encoding/json.Unmarshal" || ci.Name == "func:encoding/hex.Decode" || ci.Name == c21FnDecode {
 				idx := 1
 				if ci.Name == "func:encoding/hex.Decode" {
 					idx = 0
@@ -3670,4 +3694,54 @@ func c21FreshErr(v ssa.Value) bool {
 		}
 	}
 	return false
+}
+
+// c21R4Streaming: a received payload must be decoded as ONE JSON value.
+// json.Unmarshal rejects trailing data; (*json.Decoder).Decode stops after the
+// first value and accepts whatever follows, so a streaming decode of a payload
+// needs a check that nothing follows (dec.More(), or a second Decode / Token
+// whose result is branched on).
+func c21R4Streaming(c *an.Check, d *c21Dispatch) {
+	w := c.W
+	seen := map[string]int{}
+	for _, dec := range d.decodes {
+		if w.Info(dec.call).Name != c21FnDecode {
+			continue
+		}
+		fn := dec.call.Parent()
+		cons := "OnMessageReceived streaming decode in " + w.FuncName(fn)
+		if dec.typ != nil {
+			cons = "OnMessageReceived streaming decode of " + dec.typ.Obj().Name()
+		}
+		seen[cons]++
+		if seen[cons] > 1 {
+			cons += fmt.Sprintf(" #%d", seen[cons])
+		}
+		decoder := dec.call.Common().Args[0]
+		followed, branched := false, false
+		after := an.ReachBlocks([]*ssa.BasicBlock{dec.call.Block()}, nil, nil)
+		for _, call := range an.Calls(fn) {
+			if call == dec.call || !after[call.Block()] || len(call.Common().Args) == 0 || call.Common().Args[0] != decoder {
+				continue
+			}
+			switch w.Info(call).Name {
+			case "func:(*encoding/json.Decoder).More", "func:(*encoding/json.Decoder).Decode", "func:(*encoding/json.Decoder).Token", "func:(*encoding/json.Decoder).Buffered", "func:(*encoding/json.Decoder).InputOffset":
+				if call.Block() == dec.call.Block() && an.InstrIndex(call) < an.InstrIndex(dec.call) {
+					continue
+				}
+				followed = true
+				if v := call.Value(); v != nil && v.Referrers() != nil && len(*v.Referrers()) > 0 {
+					branched = true
+				}
+			}
+		}
+		switch {
+		case followed && branched:
+			c.OK("C21.R4", cons, w.Pos(dec.call.Pos()), "the streaming decode is followed by a test for further input")
+		case followed:
+			c.Unknown("C21.R4", cons, w.Pos(dec.call.Pos()), "the decoder is consulted again after the decode, but the result is not used")
+		default:
+			c.Bad("C21.R4", cons, w.Pos(dec.call.Pos()), "the payload is decoded with (*json.Decoder).Decode, which stops after the first JSON value and accepts trailing data (json.Unmarshal rejects it), and nothing checks that no further input follows: a message followed by garbage, or the first value of an oversized payload, is applied instead of ignored")
+		}
+	}
 }
